@@ -7,13 +7,13 @@ def E(technique, text, note, ref):
     return dict(technique=technique, text=text, note=note, ref=ref)
 COMMON_NOTE = " Trusted base: CPython, NumPy, the pyxabmon harness (driver, ledger, reference models). Open findings are matched by mechanism against known_findings.json."
 CHECKS = {
- "C01": E("runtime monitoring: API-boundary oracle on every pull/receive_reward/get_last_point of the real loop + sys.monitoring logical step budget + injected RNG end-point outcomes + recommendation probes at intermediate stopping times on deep copies + parameter draws at the far corners of the documented ranges",
+ "C01": E("runtime monitoring: API-boundary oracle on every pull/receive_reward/get_last_point of the real loop + sys.monitoring logical step budget + injected RNG end-point outcomes + recommendation probes at intermediate stopping times on deep copies + parameter draws at the far corners of the documented ranges + declared budgets up to 40000",
           "Exploration by execution: the real ask/tell loop is driven for hundreds (quick) to tens of thousands (thorough) of generated configurations x histories; every returned point is checked against the user's box, every exception and every call exceeding the logical step budget is a violation. Totality over an infinite configuration space cannot be established by running; the evidence says what was run.",
           "Assumes boxes with |lo+hi|<=1e300, SOO/StoSOO caps = smallest cap holding the budget." + COMMON_NOTE, "DESIGN.md 4/C01"),
- "C02": E("runtime monitoring: bit-exact tiling oracle at every make_children (instrumented subclasses + icontract post-condition on the real method), hostile float boxes (adjacent floats, subnormal/ulp grids, aliased interval lists), K up to 16, injected RNG outcomes, leaf-tiling walker",
+ "C02": E("runtime monitoring: bit-exact tiling oracle at every make_children (instrumented subclasses + icontract post-condition on the real method), hostile float boxes (adjacent floats, subnormal/ulp grids, aliased interval lists), K up to 64, injected RNG outcomes, companion partitions of the same class alive and growing in between, leaf-tiling walker",
           "Every split performed in partition-only histories on adversarial float boxes and inside runs of every algorithm is checked bit-exactly (containment, shared boundaries, outer faces, arity, equal widths, centres) and the leaves of every final tree are checked to tile the root. Sampled floats, not the continuum.",
           "Equal-width tolerance 4 ulp; |lo+hi|<=1e300." + COMMON_NOTE, "DESIGN.md 4/C02"),
- "C03": E("runtime monitoring: structural invariant walker at quiescent points (after every partition operation / receive_reward / get_last_point) + icontract class invariant on the real partition class",
+ "C03": E("runtime monitoring: structural invariant walker at quiescent points (after every partition operation / receive_reward / get_last_point) + icontract class invariant on the real partition class; companion partitions of the same class alive and growing in between",
           "The tree<->index invariants are re-checked by a walker after every operation of random deepen/make_children interleavings and after every round of runs of all algorithms (every partition a run creates, incl. base learners of POO/GPO).",
           "Only generated histories; aliasing is judged by its observable consequence." + COMMON_NOTE, "DESIGN.md 4/C03"),
  "C04": E("runtime monitoring: client-side ledger (point identity -> cell) vs. per-cell statistics after every round; recording subclasses of base learners inside POO/GPO; np.random.choice interception for VROOM",
@@ -26,7 +26,7 @@ CHECKS = {
           "Every expansion event of the tree bandits is judged (only in receive_reward, at most one, under the pulled cell, a leaf, children fresh) and every round's expand/not-expand decision is compared with the published rule recomputed from the ledger.",
           "Same band and conventions as C05." + COMMON_NOTE, "DESIGN.md 4/C06"),
  "C07": E("runtime monitoring: ledger of (cell, reward) vs. the cell returned by get_last_point (identity), recording learners for POO/GPO",
-          "The recommendation of DOO/SOO/SequOOL/StoSOO/StroquOOL/POO/GPO/PCT/VPCT is compared with the best candidate recomputed from the ledger on workloads that over-weight negative, tied, monotone and best-first/best-last reward sequences; also queried mid-run (sparsely in half of the runs, after every round in the other half).",
+          "The recommendation of DOO/SOO/SequOOL/StoSOO/StroquOOL/POO/GPO/PCT/VPCT is compared with the best candidate recomputed from the ledger on workloads that over-weight negative, tied, monotone and best-first/best-last reward sequences; also queried mid-run (sparsely in half of the runs, after every round in the other half) and, for DOO/SOO/StoSOO, while an evaluation is pending (those answers are not judged, the later ones are).",
           "Ties accept any maximiser; early stops where get_last_point raises are C01 findings." + COMMON_NOTE, "DESIGN.md 4/C07"),
  "C08": E("runtime monitoring: pre-split snapshots of tree+ledger at every make_children, hand-out oracle at every pull, tight and sufficient depth caps, hostile environment that chooses rewards so that b-values tie bit for bit",
           "Every expansion and every hand-out of SOO/StoSOO/DOO is judged against the tree and the ledger as they were at that moment (evaluated, best of depth / of all leaves, no unevaluated predecessor, within the cap, at most k evaluations, first unevaluated leaf top-down / max-b leaf).",
@@ -43,19 +43,19 @@ CHECKS = {
  "C12": E("runtime monitoring: make_children = 'open' events judged against the ledger, hand-out order oracle, post-exhaustion behaviour",
           "Every open of SequOOL is judged (root first, depth by depth, harmonic budget, best unopened cell, all evaluated) and every hand-out must be the next child of the opened cell; after exhaustion the root centre is returned and the recommendation object is stable.",
           "n/H_n near an integer: budget clauses not judged." + COMMON_NOTE, "DESIGN.md 4/C12"),
- "C13": E("runtime monitoring: interception of the single np.random.choice call per pull (arguments + outcome), get_rank() read-out, credited-chain observation",
-          "Per pull: support, rank permutation, monotonicity in the ledger LCB, p == 1/(h r C) element-wise, sum 1; per round: credited cells form a chain from the drawn cell to the cap, point inside drawn and deepest cell.",
-          "NumPy's categorical sampler trusted once its arguments are verified." + COMMON_NOTE, "DESIGN.md 4/C13"),
- "C14": E("runtime monitoring (metamorphic): twin runs in-process and in fresh interpreters with other PYTHONHASHSEED, entropy/clock call counters, interleaved instances vs solo runs, sandwich runs (X, other instance of the class, X) and warm-process vs fresh-interpreter digests, input box fingerprint",
+ "C13": E("runtime monitoring: interception of the single np.random.choice call per pull (arguments + outcome), get_rank() read-out, credited-chain observation, pooled frequency monitor over the drawn cells of all pulls (depth, rank and position buckets against the published probabilities, 6.5 sigma)",
+          "Per pull: support, rank permutation, monotonicity in the ledger LCB, p == 1/(h r C) element-wise, sum 1; per round: credited cells form a chain from the drawn cell to the cap, point inside drawn and deepest cell; over the whole run: the drawn cells (taken from the credit, so also when the draw is not made through np.random.choice) are pooled per depth, rank bucket and position and compared with the sums of the published probabilities.",
+          "Pulls in which the harness injected an RNG end-point outcome are left out of the pool; buckets with variance < 25 are not judged." + COMMON_NOTE, "DESIGN.md 4/C13"),
+ "C14": E("runtime monitoring (metamorphic): twin runs in-process and in fresh interpreters with other PYTHONHASHSEED, entropy/clock call counters, interleaved instances vs solo runs, sandwich runs (X, other instance of the class, X) and warm-process vs fresh-interpreter digests, input box fingerprint (incl. sides written [hi, lo]), aliased-vs-separate side lists, process-wide settings fingerprint",
           "Two executions that must agree: same case twice (bit-identical), fresh processes with different hash seeds (digest), two instances interleaved by random schedules vs their solo runs; plus counters of calls from PyXAB code into foreign entropy/clock sources and before/after comparison of the user's box.",
           "Interleaving of RNG-consuming configurations saves/restores NumPy's global state per instance." + COMMON_NOTE, "DESIGN.md 4/C14"),
  "C15": E("runtime monitoring (metamorphic): runs differing only in time labels / inserted get_last_point calls must be bit-identical",
-          "Base run vs runs with other time labels (offsets 0/17/1e6, doubled, random increasing) for the 17 anytime variants and vs runs with recommendation queries inserted for T-HOO/HCT/VHCT/Zooming/POO.",
+          "Base run vs runs with other time labels (offsets 0/17/1e6, doubled, random increasing) for the 17 anytime variants and vs runs with recommendation queries inserted for T-HOO/HCT/VHCT/Zooming/POO (incl. a slice of POO runs on RNG-consuming partitions with noisy rewards and a query after every round).",
           "Open-loop rewards." + COMMON_NOTE, "DESIGN.md 4/C15"),
  "C16": E("runtime monitoring (metamorphic): run on box D vs run on s*D+b, exact tier (bit for bit) and tolerance tier (1e-9)",
           "Exact tier: dyadic boxes, power-of-two scaling, dyadic translation on the midpoint partitions, compared bit for bit while coordinates stay exactly representable; tolerance tier: arbitrary positive scaling and translation on all partitions.",
           "VROOM and deep cells only in the tolerance tier; DOO default delta translation only." + COMMON_NOTE, "DESIGN.md 4/C16"),
- "C17": E("runtime monitoring: sampling oracle on the real f (uniform + float neighbours of maximisers / discontinuities / end points), purity and wrong-dimension probes",
+ "C17": E("runtime monitoring: sampling oracle on the real f (uniform + float neighbours of maximisers / discontinuities / end points), purity, container (tuple / ndarray / ints) and wrong-dimension probes",
           "Millions of evaluations of every objective on its documented domain: finite and <= fmax (exact comparison), fmax attained at the maximiser, Garland's gap < 0.003, pure, inputs and attributes untouched, wrong dimension -> ValueError, an exception on a point of the documented closed domain is a violation. Sampling can refute the bound, never establish it over the continuum.",
           "Sampled floats only." + COMMON_NOTE, "DESIGN.md 4/C17"),
 }
